@@ -28,9 +28,14 @@ VARIABLES resolved,   \* what the resolver returned
           firstErr, result   \* result: [done, ok, idx]
 vars == <<resolved, order, next, now, pending, inbox, waiting, firstErr, result>>
 
-Lists == UNION {[1..k -> Addr] : k \in 0..(2 * MaxPerFamily)}
-WellFormed(l) == /\ \A i, j \in 1..Len(l) : i # j => <<l[i].fam, l[i].n>> # <<l[j].fam, l[j].n>>
-                 /\ \A f \in {"v6", "v4"} : LET fl == Family(l, f) IN \A i \in 1..Len(fl) : fl[i].n = i
+\* resolver outputs: a family pattern (any interleaving of n6 IPv6 and n4 IPv4 addresses) plus a behaviour per address
+Count(q, f) == Cardinality({i \in 1..Len(q) : q[i] = f})
+Patterns == UNION {[1..k -> {"v6", "v4"}] : k \in 0..(2 * MaxPerFamily)}
+Rank(q, i) == Cardinality({j \in 1..i : q[j] = q[i]})         \* the i-th entry is the Rank-th address of its family
+Build(q, b6, b4) == [i \in 1..Len(q) |-> [fam |-> q[i], n |-> Rank(q, i), beh |-> IF q[i] = "v6" THEN b6[Rank(q, i)] ELSE b4[Rank(q, i)]]]
+Lists == UNION { { Build(q, b6, b4) : b6 \in [1..Count(q, "v6") -> Behaviours], b4 \in [1..Count(q, "v4") -> Behaviours] }
+                 : q \in {x \in Patterns : Count(x, "v6") <= MaxPerFamily /\ Count(x, "v4") <= MaxPerFamily} }
+WellFormed(l) == TRUE
 Init == /\ resolved \in {l \in Lists : WellFormed(l)} /\ order = Sorted(resolved)
         /\ next = 1 /\ now = 0 /\ pending = {} /\ inbox = {} /\ waiting = FALSE /\ firstErr = 0 /\ result = [done |-> FALSE, ok |-> FALSE, idx |-> 0]
 
